@@ -96,6 +96,35 @@ CHECKS.update({
                "0..12) and a differential decision of largest-first repayment (auto-repay order vs explicit repayments in "
                "descending principal, all tie orders)."),
 })
+
+CHECKS.update({
+    "C04": ("bounded exhaustive input-shape enumeration (all weak orderings of O/H/L/C/limit/stop on a k-level grid x "
+            "volumes x follow-up bars) against the real Exchange",
+            "Every order type x side x amount x limit/stop on a 3-level (quick) / 5-level (thorough) price grid x every "
+            "valid OHLC of the first bar x volumes {0, fractional liquidity, exact, ample} x second (and third) bar shapes "
+            "and volumes x 6 liquidity/precision/fee configurations, each executed on the real exchange; per-fill oracle "
+            "(limit respected up to quote rounding, bar reaches limit, stop reached before trading, never better than the "
+            "bar extreme, market/stop inside range and never better than open/stop) plus completeness with infinite "
+            "liquidity.",
+            "Bounded: grid levels, amounts 1 and 3 units, 2 (quick) / 3 (thorough) bars after acceptance, ample funds. "
+            "Fills are read as deltas of the public OrderInfo across a bar delivered to the exchange's bar handler.",
+            "DESIGN.md section 3, C04"),
+    "C09": ("bounded exhaustive enumeration of all partial-fill compositions x price sequences x fee parameters against "
+            "the real Exchange",
+            "Every composition of N <= 5 (quick) / 7 (thorough) units into partial fills x fill-price sequences from an "
+            "awkward set x 6 percentages x 4 minimum fees x 3 quote precisions x 2 base precisions x side; after EVERY fill "
+            "total fees = ceil(max(pct x total quote, min)) exactly, fee symbol = quote, never negative, none without a "
+            "trade, none with the no-fee scheme.",
+            "Bounded: N, the price and parameter sets listed in the check. Partial fills are produced with a 100%-volume, "
+            "zero-impact liquidity model.", "DESIGN.md section 3, C09"),
+    "C20": ("bounded exhaustive enumeration of request arrival sequences against the real limiter under a substituted clock, "
+            "compared with an exact-rational reference bucket",
+            "Every arrival sequence of <= 5 (quick) / 6 (thorough) requests with gaps {0, 1/4, 1/2, 1, 2, 5, 20} periods x "
+            "tokens per period {0.5, 1, 2, 3} x period {1, 2, 5} x initial tokens {0, 1, 3, 5}: waits >= 0, the window bound "
+            "for every pair of requests, and every wait equal to the exact-rational textbook bucket's.",
+            "Bounded: sequence length and the parameter grids; float results compared within 1e-9.",
+            "DESIGN.md section 4, C20"),
+})
 NOT_YET = "check not built yet (see DESIGN.md section 7 for the build order); no claim is made"
 
 
